@@ -18,9 +18,8 @@ use crate::core::{hex, Ctx, Rng, Stage, Tier};
 use bytes::Bytes;
 use rpki::uri::{Https, Rsync};
 use serde_json::{json, Value};
-use std::collections::hash_map::DefaultHasher;
 use std::collections::HashMap;
-use std::hash::{Hash, Hasher};
+use std::hash::Hash;
 use std::str::FromStr;
 
 const SIGMA: [u8; 7] = *b"aAb/.: ";
@@ -137,9 +136,8 @@ fn differs_in_module_case_only(a: &[u8], b: &[u8]) -> bool {
 }
 
 fn hash_of<T: Hash>(t: &T) -> u64 {
-    let mut h = DefaultHasher::new();
-    t.hash(&mut h);
-    h.finish()
+    // SipHash and a word-at-a-time hasher (sensitive to the sequence of write calls)
+    crate::core::hash2_of(t)
 }
 
 fn show(t: &[u8]) -> Value {
@@ -774,6 +772,43 @@ fn strip_to_module(t: &[u8]) -> &[u8] {
 const HOST_CHARS: &[u8] = b"abcxyzABCXYZ0129.-:";
 const SEG_CHARS: &[u8] = b"abcxyzABCXYZ0129.-_~!$%&'()*+,;=:";
 
+/// Segment shapes a parser, `join` or a later "hardening" may single out:
+/// percent-encoded dots, slashes and NUL, runs of dots, hidden files,
+/// single punctuation characters, names with bracket-like structure. Which
+/// of them are valid is decided by the reference model, not here.
+const SEG_DICT: &[&[u8]] = &[
+    b"%2e", b"%2E", b"%2e%2e", b"%2E%2E", b"%2e%2E", b".%2e", b"%2e.", b"%2e%2e%2e", b"a%2eb", b"%2f", b"%2F", b"%5c",
+    b"%00", b"%", b"%%", b"%2", b"%zz", b"...", b"....", b".a", b"a.", b"..a", b"a..", b".-", b".git", b".rsync-filter",
+    b"~", b"~a", b"-", b"_", b"--", b"*", b"+", b"$", b"!", b"'", b"(", b")", b"(a)", b",", b";", b"=", b"a=b", b"a;b",
+    b"@", b"a@b", b":", b"::", b"a:b", b"&", b"a&b", b"&amp;", b"0", b"00", b"index.html", b"a.cer", b"con", b"nul",
+    b"[a]", b"{a}", b"<a>", b"\"a\"", b"a?b=c", b"a#b", b"a b", b"a\\b", b"a|b", b"a^b", b"a`b", b"\xc3\xa4",
+];
+
+/// Authorities with structure: ports, user info, IP literals in brackets,
+/// dotted quads, punycode, forbidden characters in plausible positions.
+const AUTH_DICT: &[&[u8]] = &[
+    b"host:873", b"host:", b":873", b"user@host", b"user:pw@host", b"[::1]", b"[2001:db8::1]", b"[2001:DB8::1]:873",
+    b"[::ffff:192.0.2.1]", b"[v1.a]", b"[host]", b"[]", b"[", b"]", b"[::1", b"::1]", b"a[::1]", b"192.0.2.1",
+    b"192.0.2.1:443", b"xn--bcher-kva.example", b"example.com.", b"EXAMPLE.com", b"a..b", b"-a-", b"a_b", b"a b",
+    b"a\"b", b"<host>", b"{host}", b"a|b", b"a^b", b"a`b", b"a\\b", b"a#b", b"a?b", b"%41", b"a%2fb", b"localhost",
+];
+
+/// A path segment or module name: random over the permitted characters, or
+/// (one time in four) one of the structured shapes above.
+fn rand_seg(rng: &mut Rng, min: usize, max: usize) -> Vec<u8> {
+    if rng.chance(1, 4) {
+        return rng.pick(SEG_DICT).to_vec();
+    }
+    rand_token(rng, SEG_CHARS, min, max)
+}
+
+fn rand_auth(rng: &mut Rng, min: usize, max: usize) -> Vec<u8> {
+    if rng.chance(1, 5) {
+        return rng.pick(AUTH_DICT).to_vec();
+    }
+    rand_token(rng, HOST_CHARS, min, max)
+}
+
 fn rand_token(rng: &mut Rng, chars: &[u8], min: usize, max: usize) -> Vec<u8> {
     loop {
         let n = rng.range(min as u64, max as u64) as usize;
@@ -795,10 +830,10 @@ fn flip_case(rng: &mut Rng, t: &mut [u8]) {
 /// A family of related rsync URI texts: one base, its ancestors, trailing
 /// slash variants, case variants in every component, a sibling.
 fn rsync_family(rng: &mut Rng) -> Vec<Vec<u8>> {
-    let auth = rand_token(rng, HOST_CHARS, 1, 10);
-    let module = rand_token(rng, SEG_CHARS, 1, 6);
+    let auth = rand_auth(rng, 1, 10);
+    let module = rand_seg(rng, 1, 6);
     let nseg = rng.below(5) as usize;
-    let segs: Vec<Vec<u8>> = (0..nseg).map(|_| rand_token(rng, SEG_CHARS, 1, 5)).collect();
+    let segs: Vec<Vec<u8>> = (0..nseg).map(|_| rand_seg(rng, 1, 5)).collect();
     let build = |scheme: &[u8], auth: &[u8], module: &[u8], segs: &[Vec<u8>], slash: bool| {
         let mut t = scheme.to_vec();
         t.extend_from_slice(auth);
@@ -840,16 +875,16 @@ fn rsync_family(rng: &mut Rng) -> Vec<Vec<u8>> {
         s3[nseg - 1].push(*rng.pick(SEG_CHARS));
         fam.push(build(b"rsync://", &auth, &module, &s3, false));
         let mut s4 = segs[..nseg - 1].to_vec();
-        s4.push(rand_token(rng, SEG_CHARS, 1, 4));
+        s4.push(rand_seg(rng, 1, 4));
         fam.push(build(b"rsync://", &a2, &module, &s4, rng.bool()));
     }
     fam
 }
 
 fn https_family(rng: &mut Rng) -> Vec<Vec<u8>> {
-    let auth = rand_token(rng, HOST_CHARS, 0, 10);
+    let auth = rand_auth(rng, 0, 10);
     let nseg = rng.below(5) as usize;
-    let segs: Vec<Vec<u8>> = (0..nseg).map(|_| rand_token(rng, SEG_CHARS, 0, 5)).collect();
+    let segs: Vec<Vec<u8>> = (0..nseg).map(|_| rand_seg(rng, 0, 5)).collect();
     let build = |scheme: &[u8], auth: &[u8], segs: &[Vec<u8>], slash: bool| {
         let mut t = scheme.to_vec();
         t.extend_from_slice(auth);
@@ -886,19 +921,19 @@ fn rand_join_arg(rng: &mut Rng) -> Vec<u8> {
         0 => Vec::new(),
         1 => b"..".to_vec(),
         2 => {
-            let mut t = rand_token(rng, SEG_CHARS, 1, 4);
+            let mut t = rand_seg(rng, 1, 4);
             t.extend_from_slice(b"/../x");
             t
         }
         3 => {
             let mut t = b"/".to_vec();
-            t.extend(rand_token(rng, SEG_CHARS, 1, 4));
+            t.extend(rand_seg(rng, 1, 4));
             t
         }
         4 => {
-            let mut t = rand_token(rng, SEG_CHARS, 1, 4);
+            let mut t = rand_seg(rng, 1, 4);
             t.extend_from_slice(b"//");
-            t.extend(rand_token(rng, SEG_CHARS, 1, 4));
+            t.extend(rand_seg(rng, 1, 4));
             t
         }
         5 => {
@@ -912,7 +947,7 @@ fn rand_join_arg(rng: &mut Rng) -> Vec<u8> {
                 if i > 0 {
                     t.push(b'/');
                 }
-                t.extend(rand_token(rng, SEG_CHARS, 1, 5));
+                t.extend(rand_seg(rng, 1, 5));
             }
             if rng.chance(1, 3) {
                 t.push(b'/');
